@@ -27,6 +27,19 @@ ASSUMPTIONS = ["byte values come from one fixed pseudo-random pool containing \\
 SIZES = (0, 1, 4095, 4096, 4097, 65537)
 ERR_SIZES = (0, 1, 4097)
 DECOR = (([], {}), ([1, "two", 2.5, False], {"k": "v", "z": 0, "a": True}), (["only-args"], {}), ([], {"only": "options"}))
+# a second experiment in the same run whose args/options are element-wise == to DECOR[1]'s but of other primitive types
+TWIN = ([1.0, "two", 2.5, 0], {"k": "v", "z": False, "a": 1})
+
+
+def strict_eq(a, b):
+    """Equality that tells 1, 1.0 and True apart (JSON round trip must preserve the declared primitive type)."""
+    if type(a) is not type(b):
+        return False
+    if isinstance(a, list):
+        return len(a) == len(b) and all(strict_eq(x, y) for x, y in zip(a, b))
+    if isinstance(a, dict):
+        return sorted(a) == sorted(b) and all(strict_eq(a[k], b[k]) for k in a)
+    return a == b
 
 
 def pool(n, salt):
@@ -48,10 +61,20 @@ def make():
         err_chunks = [pool(ERR_SIZES[g.choose("elen", len(ERR_SIZES))], 99)] if g.flag("use_stderr") else []
         err_first = g.flag("stderr_first") if err_chunks else False
         interleave = g.flag("interleave") if (err_chunks and nout >= 2) else False
-        args, opts = DECOR[g.choose("decor", len(DECOR))]
+        di = g.choose("decor", len(DECOR))
+        args, opts = DECOR[di]
+        twin = g.flag("twin_task") if di == 1 else False
+        heavy = (not parallel) and bool(err_chunks) and nout == 1 and not err_first and g.flag("both_streams_concurrently")
+        if heavy:
+            out_chunks = [c * 4 for c in out_chunks]
+            err_chunks = [pool(max(len(b"".join(out_chunks)), 4096), 77)]
         proj = hrun.Project()
         try:
-            proj.write_tasks([TaskSpec("e", "run_experiment", [], par=parallel, run="./exp.sh", args=args or None, options=opts or None)])
+            tasks = [TaskSpec("e", "run_experiment", [], par=parallel, run="./exp.sh", args=args or None, options=opts or None)]
+            if twin:
+                tasks.insert(0, TaskSpec("w", "run_experiment", [], par=parallel, run="./exp.sh", args=TWIN[0], options=TWIN[1]))
+                tasks[1].deps = [":w"]
+            proj.write_tasks(tasks)
             seen = {}
 
             class S(fakeos.Sched):
@@ -66,6 +89,21 @@ def make():
 
                 def status_for(self, kernel, proc):
                     # the child's whole output happens now: Conductor is blocked waiting, the tee threads are running
+                    if proc.name != "e":
+                        return fakeos.StatusExited(0)
+                    if heavy:
+                        # both descriptors are written at the same time (two writers, 4 KiB pieces)
+                        import threading
+                        def writer(which, data):
+                            for i in range(0, len(data), 4096):
+                                kernel.child_write(proc, which, data[i:i + 4096])
+                        ts = [threading.Thread(target=writer, args=("out", b"".join(out_chunks))),
+                              threading.Thread(target=writer, args=("err", b"".join(err_chunks)))]
+                        for t in ts:
+                            t.start()
+                        for t in ts:
+                            t.join()
+                        return fakeos.StatusExited(0)
                     seq = []
                     o = list(out_chunks)
                     e = list(err_chunks)
@@ -82,12 +120,12 @@ def make():
                     return fakeos.StatusExited(0)
             kern = fakeos.Kernel(S(), clock=fakeos.Clock())
             res = hrun.invoke(cli_run.main, hrun.run_ns(task_identifier="//:e", jobs=2 if parallel else None), str(proj.root), kern)
-            D = "parallel=%s out_chunks=%s err_chunks=%s err_first=%s interleave=%s args=%s options=%s" % (
-                parallel, [len(c) for c in out_chunks], [len(c) for c in err_chunks], err_first, interleave, args, opts)
+            D = "parallel=%s out_chunks=%s err_chunks=%s err_first=%s interleave=%s concurrent=%s args=%s options=%s twin_task=%s" % (
+                parallel, [len(c) for c in out_chunks], [len(c) for c in err_chunks], err_first, interleave, heavy, args, opts, twin)
             if isinstance(res.status, str):
                 g.require(False, "log:crash:" + res.status[4:], "%s; %s" % (res.exc, D))
             g.require(res.status == 0, "log:run-failed", "status=%r err=%r; %s" % (res.status, res.err[-200:], D))
-            p = kern.tasks()[0]
+            p = [x for x in kern.tasks() if x.name == "e"][0]
             out = p.env["COND_OUT"]
             want_out = b"".join(out_chunks)
             want_err = b"".join(err_chunks)
@@ -113,10 +151,11 @@ def make():
                 f = os.path.join(out, fname)
                 if val:
                     try:
-                        ok = os.path.isfile(f) and json.load(open(f)) == val
+                        got_v = json.load(open(f)) if os.path.isfile(f) else None
+                        ok = got_v is not None and strict_eq(got_v, val)
                     except ValueError:
-                        ok = False
-                    g.require(ok, "record:%s-wrong" % fname, "%s missing or does not decode to %r; %s" % (fname, val, D))
+                        got_v, ok = "<undecodable>", False
+                    g.require(ok, "record:%s-wrong" % fname, "%s decodes to %r, declared %r (types matter); %s" % (fname, got_v, val, D))
                 else:
                     g.require(not os.path.exists(f), "record:%s-unexpected" % fname, "%s exists although nothing was declared; %s" % (fname, D))
             if any(len(c) >= 4096 for c in out_chunks):
